@@ -13,11 +13,11 @@
   * `dr_rminus`, `dr_rminus_squarednorm` unfold to `dr_expinv e`, `eᵀ·dr_expinv e`.
   * Taylor-branch truncation bounds for the `dr_expinv` coefficient (`SO3.S1invA`, `SE2.drExpinvA`)
     and the induced entrywise bounds.
-  * SO3, SE2, SE3: `dr_exp a = Σ_k (−1)^k ad(a)^k/(k+1)!` (HasSum, closed branch); SO3 also
+  * SO3, SE2, SE3 and Galilei (all 100 entries, `calculate_r`/`S2` blocks included):
+    `dr_exp a = Σ_k (−1)^k ad(a)^k/(k+1)!` (HasSum, closed branch); SO3 also
     `dr_exp a = ∫₀¹ Ad(exp(−s a)) ds` and `d/dt (t·dr_exp(t a)) = Ad(exp(−t a))`.
-  Not proved here (kept as `…_statement`): the Galilei analogue of the series
-  characterisation (the `calculate_r`/`S2` blocks), (truncation bounds for
-  `dr_exp` itself in the series branch: `so3_/se2_dr_exp_taylor_bound`, `se3_calculate_q_taylor_bound`).
+  (Truncation bounds for `dr_exp` itself in the series branch: `so3_/se2_dr_exp_taylor_bound`,
+  `se3_calculate_q_taylor_bound`.)
 -/
 import SmoothProofs.C04SO3
 import SmoothProofs.C04SE2
@@ -30,6 +30,7 @@ import SmoothProofs.C04SEK3
 import SmoothProofs.C04Galilei
 import SmoothProofs.C04Bundle
 import SmoothProofs.C04SeriesSE3
+import SmoothProofs.C04SeriesGalE
 import SmoothProofs.C04TaylorExp
 import Mathlib.Analysis.Calculus.Deriv.Basic
 
@@ -326,14 +327,64 @@ theorem se3_drExp_eq_series (a : Vec ℝ 6) (h : Scalar.eps2 < sqNorm (SE3.tw a)
       * ((Matrix.of (SE3.ad a).get : Matrix (Fin 6) (Fin 6) ℝ) ^ k) j r) ((SE3.dr_exp a) j r) :=
   C04SeriesSE3.se3_drExp_hasSum a h j r
 
-/-! ### statements not yet proved (targets of DESIGN.md §C04 kept for later rounds) -/
+/-! ### Galilei: the series characterisation (formerly stated only) -/
 
-/-- the Galilei analogue of the series characterisation (SE_K(3) follows the SE3 pattern blockwise);
-    for Galilei the `calculate_r` / `S2` blocks are tied here by `dr_exp·dr_expinv = I` only. -/
+/-- the Galilei analogue of the series characterisation, as a statement (proved below:
+    `galilei_drExp_series`) -/
 def galilei_drExp_series_statement : Prop :=
   ∀ (a : Vec ℝ 10), Scalar.eps2 < sqNorm (Galilei.tw a) → ∀ j r : Fin 10,
     HasSum (fun k : ℕ => (-1 : ℝ) ^ k / ((k + 1).factorial : ℝ)
       * ((Matrix.of (Galilei.ad a).get : Matrix (Fin 10) (Fin 10) ℝ) ^ k) j r) ((Galilei.dr_exp a) j r)
+
+/-- **Galilei, closed branch: `dr_exp a = Σ_k (−1)^k ad(a)^k/(k+1)!` entrywise, all 100 entries** —
+    in particular the `calculate_r(−b, −ω)` block (with its `sin_5`, `cos_6` coefficients), the
+    `s·(S1 − S2)` block and the `−S2·b` column ARE the corresponding blocks of the power series.
+    (`X = ad a` has the three-step chain `ω → b → q`; it satisfies `X²(X² + θ²)³ = 0`
+    (`C04SeriesGal.Z3_eq`), so `X^(2m+2) = (−θ²)^m (X² + m·Y₁ + m(m−1)/2·Y₂)`; the six resulting scalar
+    series — two of them new, with weight `m(m−1)/2` — are summed from the cos/sin series and the
+    closed form is compared with the model block by block.) -/
+theorem galilei_drExp_eq_series (a : Vec ℝ 10) (h : Scalar.eps2 < sqNorm (Galilei.tw a)) (j r : Fin 10) :
+    HasSum (fun k : ℕ => (-1 : ℝ) ^ k / ((k + 1).factorial : ℝ)
+      * ((Matrix.of (Galilei.ad a).get : Matrix (Fin 10) (Fin 10) ℝ) ^ k) j r) ((Galilei.dr_exp a) j r) :=
+  C04SeriesGal.gal_drExp_hasSum a h j r
+
+theorem galilei_drExp_series : galilei_drExp_series_statement :=
+  fun a h j r => galilei_drExp_eq_series a h j r
+
+/-- the minimal-polynomial fact behind it, for the record: `X²·(X² + |ω|²)³ = 0` for
+    `X = ad a`, every Galilei tangent `a` (any branch) -/
+theorem galilei_ad_minimal_relation (a : Vec ℝ 10) :
+    let X : Matrix (Fin 10) (Fin 10) ℝ := Matrix.of (Galilei.ad a).get
+    let P := X ^ 2 + sqNorm (Galilei.tw a) • (1 : Matrix (Fin 10) (Fin 10) ℝ)
+    X ^ 2 * (P * P * P) = 0 := by
+  intro X P
+  have hA : Galilei.ad a = C04SeriesGal.Xg (Galilei.tb a) (Galilei.tq a) (Galilei.tw a) (Galilei.ts a) :=
+    C04SeriesGal.ad_gsh a
+  have hX2 : X ^ 2 = toM (C04SeriesGal.X2g (Galilei.tb a) (Galilei.tq a) (Galilei.tw a) (Galilei.ts a)) := by
+    show (toM (Galilei.ad a)) ^ 2 = _
+    rw [hA, pow_two, ← toM_mmul, C04SeriesGal.X_sq]
+  have hZ1 : X ^ 2 * P = toM (C04SeriesGal.Z1g (Galilei.tb a) (Galilei.tq a) (Galilei.tw a) (Galilei.ts a)) := by
+    rw [← C04SeriesGal.Z1_eq, toM_madd, toM_mmul, C04SeriesGal.toM_msmul', ← hX2]
+    simp only [P, Matrix.mul_add, Matrix.mul_smul, Matrix.mul_one]
+  have hZ2 : X ^ 2 * P * P = toM (C04SeriesGal.Z2g (Galilei.tb a) (Galilei.tw a) (Galilei.ts a)) := by
+    rw [← C04SeriesGal.Z2_eq, toM_madd, toM_mmul, C04SeriesGal.toM_msmul', ← hX2, ← hZ1]
+    simp only [P, Matrix.mul_add, Matrix.add_mul, Matrix.mul_smul, Matrix.smul_mul, Matrix.mul_one]
+    noncomm_ring
+  have hZ3 := C04SeriesGal.Z3_eq (Galilei.tb a) (Galilei.tq a) (Galilei.tw a) (Galilei.ts a)
+  have hZ3' : X ^ 2 * P * P * P = 0 := by
+    have := congrArg toM hZ3
+    rw [toM_madd, toM_mmul, C04SeriesGal.toM_msmul', ← hX2, ← hZ2, toM_mzero] at this
+    rw [← this]
+    simp only [P, Matrix.mul_add, Matrix.add_mul, Matrix.mul_smul, Matrix.smul_mul, Matrix.mul_one]
+    noncomm_ring
+  rw [← hZ3']
+  noncomm_ring
+
+/-- non-vacuity: `a = (1, …, 1)` is in the closed branch (`|ω|² = 3`) -/
+example : Scalar.eps2 < sqNorm (Galilei.tw (.of (fun _ => 1) : Vec ℝ 10)) := by
+  rw [C04Alg.sqNorm3, C04SO3.eps2_real]
+  simp [Galilei.tw, mk3, Vec.of]
+  norm_num
 
 /-! ### Taylor-branch truncation bounds (series branch vs closed form) -/
 
